@@ -27,6 +27,7 @@ type PeerSpec struct {
 	ID      uint64 `json:"id"`
 	Store   uint64 `json:"store"`
 	Learner bool   `json:"learner,omitempty"`
+	Role    string `json:"joint_role,omitempty"` // "incoming" / "demoting": joint-consensus roles (never judged by the model)
 }
 
 type ConsSpec struct {
@@ -472,7 +473,166 @@ func genCase(rng *rand.Rand) *Case {
 		injectHazard(rng, c)
 		c.Origin += "+hazard"
 	}
+	if rng.Intn(8) == 0 {
+		oddize(rng, c)
+		c.Origin += "+odd"
+	}
 	return c
+}
+
+// oddize: unusual but possible spellings and shapes. What the statement (plus pd's documented
+// conventions) decides is judged: values given to exists / notExists (ignored), values containing
+// separators, empty or duplicated values, label values with separators, a location label containing a
+// separator, count 0 and huge counts, two peers on one store, a region without leader. What it does
+// not decide is only checked for panics and for the partition clause, or skipped: negative counts,
+// roles spelled in another case, joint-consensus peer roles, a peer whose store is unknown.
+func oddize(rng *rand.Rand, c *Case) {
+	for n := 1 + rng.Intn(2); n > 0; n-- {
+		r := &c.Rules[rng.Intn(len(c.Rules))]
+		switch rng.Intn(12) {
+		case 0:
+			r.Cons = append(r.Cons, ConsSpec{Key: pick(rng, []string{"zone", "host", "engine", "disk"}), Op: opNames[2+rng.Intn(2)], Values: []string{pick(rng, zones), "tiflash"}})
+		case 1:
+			if len(r.Cons) > 0 {
+				x := &r.Cons[rng.Intn(len(r.Cons))]
+				switch rng.Intn(4) {
+				case 0:
+					x.Values = append(x.Values, "")
+				case 1:
+					if len(x.Values) > 0 {
+						x.Values = append(x.Values, x.Values[0])
+					}
+				case 2:
+					x.Values = []string{strings.Join(append(append([]string(nil), x.Values...), "z2"), ",")}
+				default:
+					x.Values = append(x.Values, "z1 z2", "z1;z2")
+				}
+			}
+		case 2:
+			st := &c.Stores[rng.Intn(len(c.Stores))]
+			if len(st.Labels) > 0 {
+				i := rng.Intn(len(st.Labels))
+				st.Labels[i].V = st.Labels[i].V + "," + pick(rng, zones)
+				if rng.Intn(2) == 0 {
+					r.Cons = append(r.Cons, ConsSpec{Key: st.Labels[i].K, Op: opNames[rng.Intn(2)], Values: []string{st.Labels[i].V}})
+				}
+			}
+		case 3:
+			r.Loc = []string{"zone,host"}
+			if rng.Intn(2) == 0 {
+				r.Loc = []string{"zone", "zone,host", "host"}
+			}
+		case 4:
+			r.Count = []int{0, 0, 1 << 40, int(^uint(0) >> 1), -1, -5}[rng.Intn(6)]
+		case 5:
+			r.Role = pick(rng, []string{"Voter", "LEADER", "Learner", "follower ", ""})
+		case 6:
+			p := &c.Peers[rng.Intn(len(c.Peers))]
+			p.Role = pick(rng, []string{"incoming", "demoting"})
+		case 7:
+			if len(c.Peers) > 1 {
+				i, j := rng.Intn(len(c.Peers)), rng.Intn(len(c.Peers))
+				c.Peers[i].Store = c.Peers[j].Store
+			}
+		case 8:
+			c.Leader = []uint64{0, 9999}[rng.Intn(2)]
+		case 9:
+			gone := c.Peers[rng.Intn(len(c.Peers))].Store
+			var keep []StoreSpec
+			for _, s := range c.Stores {
+				if s.ID != gone {
+					keep = append(keep, s)
+				}
+			}
+			c.Stores = keep
+		default:
+			if len(r.Cons) > 0 {
+				r.Cons = append(r.Cons, r.Cons[0]) // the same constraint twice
+			}
+		}
+	}
+}
+
+// oneFieldGrid: two rules that differ in exactly one field (every field, several values) compete for
+// the same peers, in both orders, over three regions of one small cluster.
+func oneFieldGrid(fn func(idx int, c *Case)) {
+	stores := []StoreSpec{plainStore(1, "z1", "h1"), plainStore(2, "z1", "h2"), plainStore(3, "z2", "h1"), plainStore(4, "z3", "h1"),
+		{ID: 5, Labels: []Label{{"zone", "z2"}, {"host", "h2"}, {"engine", "tiflash"}}}}
+	regions := [][]PeerSpec{
+		{{ID: 1, Store: 1}, {ID: 2, Store: 2}, {ID: 3, Store: 3}, {ID: 4, Store: 4}},
+		{{ID: 4, Store: 1}, {ID: 3, Store: 2, Learner: true}, {ID: 2, Store: 3}, {ID: 1, Store: 5, Learner: true}},
+		{{ID: 7, Store: 3}, {ID: 8, Store: 4}, {ID: 9, Store: 5, Learner: true}},
+	}
+	leaders := []uint64{1, 4, 8}
+	zc := func(op string, vs ...string) []ConsSpec { return []ConsSpec{{Key: "zone", Op: op, Values: vs}} }
+	bases := []RuleSpec{
+		{Role: "voter", Count: 2, Cons: zc("in", "z1", "z2"), Loc: []string{"zone", "host"}},
+		{Role: "follower", Count: 1, Loc: []string{"zone"}},
+		{Role: "learner", Count: 1, Cons: []ConsSpec{{Key: "engine", Op: "in", Values: []string{"tiflash"}}}},
+	}
+	idx := 0
+	for _, b := range bases {
+		var vars []RuleSpec
+		for _, role := range roleNames {
+			if role != b.Role {
+				v := b
+				v.Role = role
+				vars = append(vars, v)
+			}
+		}
+		for _, cnt := range []int{1, 2, 3} {
+			if cnt != b.Count {
+				v := b
+				v.Count = cnt
+				vars = append(vars, v)
+			}
+		}
+		for _, loc := range [][]string{nil, {"zone"}, {"host"}, {"zone", "host"}, {"host", "zone"}} {
+			if strings.Join(loc, ",") != strings.Join(b.Loc, ",") {
+				v := b
+				v.Loc = loc
+				vars = append(vars, v)
+			}
+		}
+		if len(b.Cons) > 0 {
+			for _, op := range opNames {
+				if op != b.Cons[0].Op {
+					v := b
+					v.Cons = []ConsSpec{{Key: b.Cons[0].Key, Op: op, Values: b.Cons[0].Values}}
+					vars = append(vars, v)
+				}
+			}
+			for _, vs := range [][]string{{"z1"}, {"z3"}, {"z2", "z1"}, nil} {
+				v := b
+				v.Cons = []ConsSpec{{Key: b.Cons[0].Key, Op: b.Cons[0].Op, Values: vs}}
+				vars = append(vars, v)
+			}
+			v := b
+			v.Cons = []ConsSpec{{Key: "host", Op: b.Cons[0].Op, Values: b.Cons[0].Values}}
+			vars = append(vars, v)
+			v = b
+			v.Cons = nil
+			vars = append(vars, v)
+		} else {
+			v := b
+			v.Cons = zc("in", "z1")
+			vars = append(vars, v)
+		}
+		vars = append(vars, b) // and the identical twin (only the id differs)
+		for _, v := range vars {
+			for ri, reg := range regions {
+				for order := 0; order < 2; order++ {
+					r0, r1 := b, v
+					if order == 1 {
+						r0, r1 = v, b
+					}
+					r0.ID, r1.ID = "a", "b"
+					fn(idx, &Case{Origin: "directed/one-field", Stores: stores, Peers: reg, Leader: leaders[ri], Rules: []RuleSpec{r0, r1}})
+					idx++
+				}
+			}
+		}
+	}
 }
 
 // genNearSatisfied builds the rules first and then a region that fills them (right stores, right
